@@ -229,6 +229,8 @@ func (t *txnDS) NewTransaction(ctx context.Context, readOnly bool) (datastore.Tx
 	if !readOnly {
 		return nil, errors.New("vk: only read-only transactions are modelled")
 	}
+	// the moment the snapshot is taken is a scheduling point of the schedule explorer
+	t.op("txn")
 	t.mu.Lock()
 	defer t.mu.Unlock()
 	snap := make(map[string][]byte, len(t.data))
